@@ -17,7 +17,7 @@ struct Fn
 {
 	std::string kind;
 	std::vector<double> p, q;
-	double w = 0, s = 0, c = 0, t = 0;
+	double w = 0, s = 0, c = 0, t = 0, q0 = 0;
 	long long ip = 0;
 	std::shared_ptr<Fn> inner;
 	static double horner(const std::vector<double>& c, double x)
@@ -62,6 +62,8 @@ struct Fn
 			return std::exp(w * (x - s)) - c;
 		if(kind == "logx")	 // log(x/s)*w - c
 			return w * std::log(x / s) - c;
+		if(kind == "dip")	// tiny positive plateau right of the root r, deep negative dip left of it (a = left end of the bracket)
+			return x > s ? c * std::tanh((x - s) / w) : -(s - x) * ((x - t) + q0);
 		if(kind == "gbump")	  // c * (x-s) * exp(-w*x^2): sign change at s, tails hundreds of decades below the interior
 			return c * (x - s) * std::exp(-w * x * x);
 		if(kind == "gauss")	  // exp(-w*(x-s)^2) - c
@@ -92,6 +94,14 @@ static Fn parse_fn(Args& a)
 	{
 		f.ip = a.i64();
 		f.c	 = a.dbl();
+	}
+	else if(f.kind == "dip")   // dip <a> <r> <w> <eta> <kappa>
+	{
+		f.t	 = a.dbl();
+		f.s	 = a.dbl();
+		f.w	 = a.dbl();
+		f.c	 = a.dbl();
+		f.q0 = a.dbl();
 	}
 	else if(f.kind == "rbump")
 	{
